@@ -106,15 +106,15 @@ func (s ImplSys) OpenWrite(p string, flag int, perm uint32, data []byte) (int, i
 	_ = f.Close()
 	return 0, w
 }
-func (s ImplSys) Remove(p string) int              { return hx.Code(s.V.Remove(p)) }
-func (s ImplSys) RemoveAll(p string) int           { return hx.Code(s.V.RemoveAll(p)) }
-func (s ImplSys) Rename(o, n string) int           { return hx.Code(s.V.Rename(o, n)) }
-func (s ImplSys) Link(o, n string) int             { return hx.Code(s.V.Link(o, n)) }
-func (s ImplSys) Symlink(t, n string) int          { return hx.Code(s.V.Symlink(t, n)) }
-func (s ImplSys) Truncate(p string, sz int64) int  { return hx.Code(s.V.Truncate(p, sz)) }
-func (s ImplSys) Chmod(p string, m uint32) int     { return hx.Code(s.V.Chmod(p, GoMode(m))) }
-func (s ImplSys) Chown(p string, u, g int) int     { return hx.Code(s.V.Chown(p, u, g)) }
-func (s ImplSys) Lchown(p string, u, g int) int    { return hx.Code(s.V.Lchown(p, u, g)) }
+func (s ImplSys) Remove(p string) int             { return hx.Code(s.V.Remove(p)) }
+func (s ImplSys) RemoveAll(p string) int          { return hx.Code(s.V.RemoveAll(p)) }
+func (s ImplSys) Rename(o, n string) int          { return hx.Code(s.V.Rename(o, n)) }
+func (s ImplSys) Link(o, n string) int            { return hx.Code(s.V.Link(o, n)) }
+func (s ImplSys) Symlink(t, n string) int         { return hx.Code(s.V.Symlink(t, n)) }
+func (s ImplSys) Truncate(p string, sz int64) int { return hx.Code(s.V.Truncate(p, sz)) }
+func (s ImplSys) Chmod(p string, m uint32) int    { return hx.Code(s.V.Chmod(p, GoMode(m))) }
+func (s ImplSys) Chown(p string, u, g int) int    { return hx.Code(s.V.Chown(p, u, g)) }
+func (s ImplSys) Lchown(p string, u, g int) int   { return hx.Code(s.V.Lchown(p, u, g)) }
 func (s ImplSys) Chtimes(p string) int {
 	return hx.Code(s.V.Chtimes(p, time.Unix(1000, 0), time.Unix(2000, 0)))
 }
@@ -191,13 +191,13 @@ func (s ModelSys) Stat(p string) (Stat, int) {
 	st, e := s.F.Stat(p)
 	return mstat(st), e
 }
-func (s ModelSys) Readlink(p string) (string, int) { return s.F.Readlink(p) }
+func (s ModelSys) Readlink(p string) (string, int)  { return s.F.Readlink(p) }
 func (s ModelSys) ReadDir(p string) ([]string, int) { return s.F.ReadDir(p) }
 func (s ModelSys) ReadFile(p string) ([]byte, int)  { return s.F.ReadFile(p) }
 
 // ---- seeds ----
 
-// Seed builds seed tree s under /w in any world (same trees as hx.Seed).
+// Seed builds seed tree s under /w in any world (same trees as hx.Seed; 4: /w/a/a and /w/b are two links of one file, /w/c is another file).
 func Seed(w Sys, s int) {
 	must(w.MkdirAll("/w", 0o755))
 	if s == 0 {
@@ -218,6 +218,12 @@ func Seed(w Sys, s int) {
 	case 3:
 		must(w.Symlink("a", "/w/b"))
 		must(w.Symlink("nope", "/w/c"))
+	case 4:
+		// a file with two links plus an unrelated file
+		must(w.Link("/w/a/a", "/w/b"))
+		c, c2 = w.OpenWrite("/w/c", 1|0x40|0x200, 0o600, []byte("zzz"))
+		must(c)
+		must(c2)
 	}
 }
 
